@@ -37,6 +37,7 @@ fn main() {
         let end: u64 = args[7].parse().unwrap_or(0);
         let f: &vpcheck::procmon::WorkerCase = match (p, stream) {
             ("C08", _) => &vpcheck::props::c08::case,
+            ("C12", _) => &vpcheck::props::c12::case,
             _ => usage(),
         };
         vpcheck::procmon::worker_loop(p, stream, seed, start, step, end, f);
@@ -88,6 +89,8 @@ fn main() {
     match prop.as_str() {
         "C01" => vpcheck::props::c01::run(&ctx),
         "C08" => vpcheck::props::c08::run(&ctx),
+        "C09" => vpcheck::props::c09::run(&ctx),
+        "C12" => vpcheck::props::c12::run(&ctx),
         _ => usage(),
     }
     std::process::exit(ctx.finish());
